@@ -709,12 +709,16 @@ func (obj *SparseReal32Matrix) JointIterator(b ConstMatrix) MatrixJointIterator 
   return obj.JOINT_ITERATOR(b)
 }
 func (obj *SparseReal32Matrix) ITERATOR() *SparseReal32MatrixIterator {
-  r := SparseReal32MatrixIterator{*obj.values.ITERATOR(), obj}
+  // start at the first element of the (possibly sliced) matrix
+  k := obj.rowOffset*obj.colMax + obj.colOffset
+  r := SparseReal32MatrixIterator{*obj.values.ITERATOR_FROM(k), obj}
+  r.clip()
   return &r
 }
 func (obj *SparseReal32Matrix) ITERATOR_FROM(i, j int) *SparseReal32MatrixIterator {
   k := obj.index(i, j)
   r := SparseReal32MatrixIterator{*obj.values.ITERATOR_FROM(k), obj}
+  r.clip()
   return &r
 }
 func (obj *SparseReal32Matrix) JOINT_ITERATOR(b ConstMatrix) *SparseReal32MatrixJointIterator {
@@ -735,6 +739,28 @@ type SparseReal32MatrixIterator struct {
 }
 func (obj *SparseReal32MatrixIterator) Index() (int, int) {
   return obj.m.ij(obj.SparseReal32VectorIterator.Index())
+}
+func (obj *SparseReal32MatrixIterator) Ok() bool {
+  if !obj.SparseReal32VectorIterator.Ok() {
+    return false
+  }
+  // stop after the last row of a sliced matrix
+  i, _ := obj.Index()
+  return i < obj.m.rows
+}
+func (obj *SparseReal32MatrixIterator) Next() {
+  obj.SparseReal32VectorIterator.Next()
+  obj.clip()
+}
+// skip entries of the storage that are not within the columns of a
+// sliced matrix
+func (obj *SparseReal32MatrixIterator) clip() {
+  for obj.Ok() {
+    if _, j := obj.Index(); j >= 0 && j < obj.m.cols {
+      break
+    }
+    obj.SparseReal32VectorIterator.Next()
+  }
 }
 func (obj *SparseReal32MatrixIterator) Clone() *SparseReal32MatrixIterator {
   return &SparseReal32MatrixIterator{*obj.SparseReal32VectorIterator.Clone(), obj.m}
